@@ -36,5 +36,23 @@ TEXT = {
   "note": "Trusted: Lean kernel; extractor's ban-site analysis; that the three modelled lookup sites are all the routes (the regenerated site list says so for the Go code).",
   "technique": "Lean 4 state-machine invariants + local parser theorems + regenerated ban-site facts + route/history differential suites with probes",
  },
+ "C04": {
+  "text": "Theorem in Lean 4 (exec_starts_fresh): in the model an execution's output, error and other effects do not depend on whatever earlier executions left in the only state that could be carried over (the memory of cycle/ifchanged), and that memory is restored on success and failure; Execute is a function of (compiled tables, template, context) (equal_contexts_equal_results). That the Go code keeps no other state across executions is the regenerated obligation gen_exec_writes_none: the effect table extracted from /repo on every run (own CHA call graph from every Execute* entry point and the reflective ones, 200 functions) contains no store to the compiled template, anything hanging off it, the template set, a package variable or the caller's context; anchors guard against a truncated call graph. Histories of 2-5 executions (equal, different and failing contexts; all four TrimBlocks x LStripBlocks settings, also toggled in between) are compared with a fresh compile.",
+  "ref": "DESIGN.md §6 C04",
+  "note": "Trusted: Lean kernel; the extractor's call graph and write classification (no alias tracking); compilation reached from execution (lazy include) is treated as building fresh objects.",
+  "technique": "Lean 4 theorem on the executable model + regenerated effect table (static, all inputs) + history differential against fresh compiles",
+ },
+ "C05": {
+  "text": "Theorems in Lean 4 on an interleaving model (threads = deterministic step machines over a shared memory, schedule = any list of thread indices): if no thread writes shared memory then under every schedule the memory is unchanged (readonly_mem_unchanged) and every thread ends in exactly the state it reaches running alone for the steps it was given (readonly_interleaving) — so concurrent executions cannot influence one another and no step can take part in a data race. Instantiation for pongo2 by regenerated facts: the effect table of everything reachable from the execution entry points is empty (gen_exec_is_readonly), the call graph anchors are reachable, and the template cache is only touched under the set's mutex (gen_cache_under_lock). Level: proof of the model-level statement, partial for the runtime (Go memory model, scheduler, mutex assumed). Supporting search: generated programs executed from 2-8 goroutines under GOMAXPROCS 1/2/8 with concurrent compiles, outputs compared with sequential ones, under the race detector.",
+  "ref": "DESIGN.md §6 C05",
+  "note": "Trusted: Lean kernel; extractor's effect/lock tables; Go runtime semantics are assumed, not modelled; race detector only supports the search for a failing input.",
+  "technique": "Lean 4 interleaving theorems + regenerated effect/lock tables + race-detector differential runs",
+ },
+ "C20": {
+  "text": "Theorems in Lean 4 on the cache state machine (every FromCache/CleanCache call is one atomic step, justified by the regenerated lock-discipline fact; theorems quantify over all sequences, i.e. all interleavings): a cached name is returned as is with no fetch (hit_returns_cached); a miss performs exactly one fetch of that name and stores a fresh template (miss_loads_once); failed loads are not cached; Debug stores nothing and always loads (debug_bypasses); CleanCache(n) removes exactly n, CleanCache() everything; the identity invariant holds along every history (step_inv); k+1 requests for an uncached name in any interleaving perform exactly one fetch and all receive the same template (concurrent_requests_load_once). Histories of <= 20 ops incl. file changes, compile failures and two spellings of one name are compared with the model (template identity classes, errors, Get log); concurrent phases run under the race detector against the linearisation prediction.",
+  "ref": "DESIGN.md §6 C20",
+  "note": "Trusted: Lean kernel; mutex = atomic step (runtime assumed); extractor's lock-discipline fact; model of the loader's path resolution.",
+  "technique": "Lean 4 state-machine theorems over all interleavings of atomic steps + regenerated lock facts + history differential + race-detector runs",
+ },
 }
 PENDING = {}
